@@ -281,7 +281,23 @@ def channels(ctx):
 # ------------------------------------------------------------------ ledger / search / replay
 
 def matches_finding(finding, failure):
-    return False
+    """D9 (class leeway-too-small): the failing request lies outside LeewayTime / LeewayNumber"""
+    if finding.get("class") != "leeway-too-small" or failure.get("kind") != "advertised-not-retrievable":
+        return False
+    f = failure.get("fetch")
+    if not f:
+        return False
+    import re
+    import segchecks
+    from dashlive.server.options.repository import OptionsRepository
+    t = segchecks.tracks(segchecks.get_app(), f["stream"]).get(f["rep_id"])
+    if t is None:
+        return False
+    m = re.search(r"[?&]leeway=(\d+)", f["url"])
+    lee_us = (int(m.group(1)) if m else int(OptionsRepository.get_default_options().leeway)) * 10 ** 6
+    if f["mode"] == "number" and f.get("listed_index") is None:
+        return not (2 * t.sd * 10 ** 6 + t.ts <= lee_us * t.ts)
+    return not ((max(t.durs) // 2 + 1) * 10 ** 6 + t.ts <= lee_us * t.ts and max(t.durs) // 2 <= t.sd)
 
 
 def replay_finding(ctx, finding):
